@@ -177,6 +177,13 @@ pub fn gen_case(r: &mut Rng, out: &mut String) {
             write!(h, "{:02x}", b).unwrap();
         }
         writeln!(out, "from_lsb0 b0 {} {}", off, h).unwrap();
+    } else if r.chance(1, 6) {
+        // the whole value is decoded: run containers whose runs overlap / repeat (accepted by both decoders), with the sum
+        // of the run lengths and the real cardinality on opposite sides of the 4096 limit; or a conformant stream
+        let mode = if r.chance(1, 2) { "chk" } else { "unchk" };
+        let bytes = if r.chance(2, 3) { super::stream::overlapping_runs_stream(r).0 } else { super::stream::gen_stream(r, true).bytes };
+        writeln!(out, "new b0").unwrap();
+        writeln!(out, "deser {} b0 {}", mode, super::c05::hex(&bytes)).unwrap();
     } else {
         writeln!(out, "new b0").unwrap();
         if r.chance(1, 12) {
